@@ -39,7 +39,7 @@ AllParserDevs == {"CaptionSwallowsDataCells", "TagAttrNameCharset"}
 (* ------------------------------------------------------------------------ *)
 Punct == {"|", "!", "{", "}", "[", "]", "<", ">", "/", "=", "\"", "'", ":", "+", "-", "*", "#", ";", "&",
           ".", ",", "(", ")", "_", "~", "%", "?", "@", "`", "$", "^", "\\"}
-MaxCk == 40
+MaxCk == 150
 CkAtom(i) == "CK#" \o ToString(i)
 CkSet == {CkAtom(i) : i \in 1..MaxCk}
 CkIdx(a) == CHOOSE i \in 1..MaxCk : CkAtom(i) = a
